@@ -22,7 +22,7 @@ ASSUMPTIONS = [
 ]
 MANIFEST = {'text': 'proof (over-approximating backward data provenance) that no path component of an extracted file comes from an unsanitised member name: sinks are fed by enclosed_name()/file_stem()-derived '
                     'rename values joined onto a TempDir path; the set of fs-mutating call sites in the archive module equals the reviewed set.'
-                    ' Added: the volume chain never signals end-of-data with volumes remaining, and repositions a volume reader relatively only when its position is known (rel_pos != 0).'}
+                    ' Added: the volume chain never signals end-of-data with volumes remaining, and repositions a volume reader relatively only when its position is known (rel_pos != 0). Added: a binary search in the archive module compares by the key type the sequence was sorted by (String order is not Path order).'}
 
 SINK = re.compile(r'^std::fs::(create_dir_all|create_dir|File::create|File::create_new|write|rename|copy|remove_file|remove_dir_all|remove_dir|hard_link|OpenOptions::open|set_permissions)$|^std::os::unix::fs::symlink$')
 FORBIDDEN = re.compile(r'ZipFile(::<[^>]*>|<[^>]*>)?::(name|mangled_name|name_raw)$')
